@@ -7,8 +7,9 @@
 // One MeterProvider, two ManualReaders (delta via WithTemporalitySelector, cumulative), both
 // collecting back to back at every collection point.  The harness only executes and projects:
 // every reported data point is projected onto the model's vocabulary (attribute-set index,
-// integer values in 1/unit, bucket counts, structural relations between timestamps) and written
-// as ndjson; Trace_Temporality.tla (TLC) holds every expectation.
+// integer values in 1/unit, bucket counts, structural relations among the timestamps the SDK
+// reported -- the harness never reads a clock) and written as ndjson; Trace_Temporality.tla (TLC)
+// holds every expectation.
 package main
 
 import (
@@ -238,7 +239,7 @@ func projectData(data metricdata.Aggregation, unit int64) (dt, temp string, pts 
 // ---------------------------------------------------------------- a running scenario
 
 type track struct { // per (reader, stream): what is needed for the structural time relations
-	prevTimes  []time.Time       // Time of this stream's points in the immediately preceding collection
+	prevTime   map[int]time.Time // per attribute set: Time reported in the immediately preceding collection
 	prevStart  map[int]time.Time // per attribute set: StartTime reported in the immediately preceding collection
 	firstStart map[int]time.Time // per attribute set: first StartTime ever reported
 }
@@ -348,8 +349,9 @@ func newScenario(rng *rand.Rand, specs []StreamSpec, ncb int, reuse bool, deltaF
 	sc.rms = [2]*metricdata.ResourceMetrics{{}, {}}
 	for _, sp := range specs {
 		s := &stream{spec: sp, table: make([]int, sp.NA)}
-		s.trk[0] = &track{prevStart: map[int]time.Time{}, firstStart: map[int]time.Time{}}
-		s.trk[1] = &track{prevStart: map[int]time.Time{}, firstStart: map[int]time.Time{}}
+		for r := range s.trk {
+			s.trk[r] = &track{prevTime: map[int]time.Time{}, prevStart: map[int]time.Time{}, firstStart: map[int]time.Time{}}
+		}
 		sc.create(s)
 		sc.streams = append(sc.streams, s)
 		sc.byName[sp.Name] = s
@@ -541,7 +543,7 @@ func (sc *scenario) project(r int, k int, s *stream, found []metricdata.Metrics)
 		rd.Pts[i] = noPt()
 	}
 	trk := s.trk[r]
-	var nowTimes []time.Time
+	nowTime := map[int]time.Time{}
 	nowStart := map[int]time.Time{}
 	if len(found) > 1 {
 		rd.Junk += len(found) - 1
@@ -560,13 +562,22 @@ func (sc *scenario) project(r int, k int, s *stream, found []metricdata.Metrics)
 			p := rp.pt
 			p.Sle = !rp.start.After(rp.time)
 			p.Sgap = k < 2 || !rp.start.Before(sc.seen[r][k-2])
-			eqAll := true
-			for _, t := range trk.prevTimes {
-				if !t.Equal(rp.start) {
-					eqAll = false
+			// "starts where the previous collection ended": the Time this reader reported for the
+			// same attribute set in its preceding collection; if only other sets of the stream
+			// were reported then, anywhere between their Times (they are equal in this SDK)
+			if pt, ok := trk.prevTime[a]; ok {
+				p.Sprev = tri(true, pt.Equal(rp.start))
+			} else if len(trk.prevTime) > 0 {
+				within := false
+				for _, t := range trk.prevTime {
+					for _, u := range trk.prevTime {
+						if !rp.start.Before(t) && !rp.start.After(u) {
+							within = true
+						}
+					}
 				}
+				p.Sprev = tri(true, within)
 			}
-			p.Sprev = tri(len(trk.prevTimes) > 0, eqAll)
 			ps, ok := trk.prevStart[a]
 			p.Scont = tri(ok, ok && ps.Equal(rp.start))
 			fs, ok := trk.firstStart[a]
@@ -574,12 +585,12 @@ func (sc *scenario) project(r int, k int, s *stream, found []metricdata.Metrics)
 			if !ok {
 				trk.firstStart[a] = rp.start
 			}
-			nowTimes = append(nowTimes, rp.time)
+			nowTime[a] = rp.time
 			nowStart[a] = rp.start
 			rd.Pts[a-1] = p
 		}
 	}
-	trk.prevTimes = nowTimes
+	trk.prevTime = nowTime
 	trk.prevStart = nowStart
 	return rd
 }
@@ -722,15 +733,32 @@ type edge struct {
 	K    int  `json:"k"`
 }
 
-// heartbeat: a companion counter of the replayed scenarios, measured once before every collection
+// heartbeat: a companion stream of the replayed scenarios, measured once before every collection
 // point, so that each reader reports at least one timestamp per collection (the structural
-// non-overlap relation sgap of the stream under test is then never vacuous).
-var heartbeat = StreamSpec{Cfg: Cfg{Kind: "Counter", Agg: "sum", NA: 1, Vals: []int64{1}, Unit: 1, Bounds: []int64{}, NCB: 1},
-	Name: "heartbeat", NoView: true, Meter: 1, Silent: true}
+// non-overlap relation sgap of the stream under test is then never vacuous).  It reports the same
+// metricdata type as the stream under test (same aggregation and number type, always with a sum),
+// so the two streams exchange their reused ResourceMetrics memory whenever one of them is silent.
+const heartbeatName = "heartbeat"
+
+func heartbeatFor(sp StreamSpec) StreamSpec {
+	hb := StreamSpec{Cfg: Cfg{Agg: sp.Agg, NA: 1, Vals: []int64{7}, Unit: sp.Unit, Bounds: []int64{}, NCB: 1},
+		Name: heartbeatName, Meter: sp.Meter, Silent: true}
+	switch sp.Agg {
+	case "sum":
+		hb.Kind, hb.NoView = "Counter", true
+	case "last":
+		hb.Kind, hb.NoView = "Gauge", true
+	case "hist":
+		hb.Kind, hb.NoView = "Histogram", true
+	default:
+		hb.Kind = "Histogram"
+	}
+	return hb
+}
 
 func runOps(sc *scenario, s *stream, ops []Op, deltaFirst bool) {
 	for _, op := range ops {
-		if hb := sc.byName[heartbeat.Name]; hb != nil && op.Op == "Collect" {
+		if hb := sc.byName[heartbeatName]; hb != nil && op.Op == "Collect" {
 			sc.record(hb, 1, 1)
 		}
 		switch op.Op {
@@ -775,11 +803,13 @@ func replay(args []string) {
 		if *sample > 1 && (int64(i)+vh.Seed())%int64(*sample) != 0 {
 			continue
 		}
-		variant := (int64(i) + vh.Seed()) // rm reuse / reader order / collection order vary with the edge
-		rng := rand.New(rand.NewSource(variant))
-		specs := []StreamSpec{spec, heartbeat}
-		if (variant/8)%2 == 0 { // creation order of the two instruments varies as well
-			specs = []StreamSpec{heartbeat, spec}
+		// ResourceMetrics reuse / reader registration order / collection order / creation order of the
+		// two instruments vary with the edge, independently of the sampling above
+		rng := rand.New(rand.NewSource(int64(i)*1000003 + vh.Seed()))
+		variant := rng.Int63()
+		specs := []StreamSpec{spec, heartbeatFor(spec)}
+		if (variant/8)%2 == 0 {
+			specs = []StreamSpec{specs[1], specs[0]}
 		}
 		sc := newScenario(rng, specs, spec.NCB, variant%2 == 0, (variant/2)%2 == 0)
 		st := sc.byName[spec.Name]
@@ -791,7 +821,7 @@ func replay(args []string) {
 		res.Count("cycles", int64(st.ncycles))
 		res.Count("unknown_metrics", int64(sc.errs))
 		countRegimes(res, sc)
-		if i%1999 == 1 {
+		if res.Executed%1999 == 1 {
 			res.Sample(map[string]any{"cfg": spec.Cfg, "ops": ops, "last": st.lines[len(st.lines)-1]})
 		}
 	}
@@ -937,6 +967,86 @@ func random(args []string) {
 	vh.Must(res.Write(*resF))
 }
 
+// ---------------------------------------------------------------- directed reproductions (docs/notes/C08.md)
+
+// probe prints what a real provider reports for the two minimal histories behind the findings
+// of known_findings/C08.json.  It decides nothing (the check's verdicts come from TLC); it is the
+// shortest way to look at the behaviour by hand and to see that a candidate fix changes it.
+func probe(args []string) {
+	fs := flag.NewFlagSet("probe", flag.ExitOnError)
+	name := fs.String("name", "stale-sum", "stale-sum | async-hist-stale-set")
+	fs.Parse(args)
+	ctx := context.Background()
+	show := func(label string, rm *metricdata.ResourceMetrics) {
+		for _, sm := range rm.ScopeMetrics {
+			for _, m := range sm.Metrics {
+				_, temp, raw := projectData(m.Data, 1)
+				for _, rp := range raw {
+					enc, _ := rp.attrs.MarshalJSON()
+					fmt.Printf("%s: metric=%s temporality=%s attrs=%s count=%d sum=%d value=%d buckets=%v\n",
+						label, m.Name, temp, enc, rp.pt.N, rp.pt.S, rp.pt.V, rp.pt.B)
+				}
+			}
+		}
+	}
+	switch *name {
+	case "stale-sum":
+		// An UpDownCounter aggregated as a histogram never collects a sum.  With a reused
+		// ResourceMetrics its data point takes over the memory another histogram used before.
+		rd := sdkmetric.NewManualReader()
+		mp := sdkmetric.NewMeterProvider(sdkmetric.WithReader(rd), sdkmetric.WithView(sdkmetric.NewView(
+			sdkmetric.Instrument{Name: "updown"},
+			sdkmetric.Stream{Aggregation: sdkmetric.AggregationExplicitBucketHistogram{Boundaries: []float64{0, 10}}})))
+		m := mp.Meter("probe")
+		ud, err := m.Int64UpDownCounter("updown")
+		vh.Must(err)
+		h, err := m.Int64Histogram("hist", metric.WithExplicitBucketBoundaries(0, 10))
+		vh.Must(err)
+		rm := &metricdata.ResourceMetrics{}
+		h.Record(ctx, 7)
+		vh.Must(rd.Collect(ctx, rm))
+		show("collection 1", rm)
+		ud.Add(ctx, 1)
+		vh.Must(rd.Collect(ctx, rm))
+		show("collection 2 (same ResourceMetrics)", rm)
+		fresh := &metricdata.ResourceMetrics{}
+		vh.Must(rd.Collect(ctx, fresh))
+		show("collection 3 (fresh ResourceMetrics)", fresh)
+	case "async-hist-stale-set":
+		// An observable counter aggregated as a histogram, cumulative reader: the set is observed
+		// in the first cycle only.
+		rd := sdkmetric.NewManualReader()
+		mp := sdkmetric.NewMeterProvider(sdkmetric.WithReader(rd), sdkmetric.WithView(sdkmetric.NewView(
+			sdkmetric.Instrument{Name: "obs"},
+			sdkmetric.Stream{Aggregation: sdkmetric.AggregationExplicitBucketHistogram{Boundaries: []float64{0, 10}}})))
+		m := mp.Meter("probe")
+		observeIt := true
+		_, err := m.Int64ObservableCounter("obs", metric.WithInt64Callback(func(_ context.Context, o metric.Int64Observer) error {
+			if observeIt {
+				o.Observe(5, metric.WithAttributes(attribute.String("k", "x")))
+			}
+			return nil
+		}))
+		vh.Must(err)
+		for cycle := 1; cycle <= 3; cycle++ {
+			observeIt = cycle == 1
+			rm := &metricdata.ResourceMetrics{}
+			vh.Must(rd.Collect(ctx, rm))
+			fmt.Printf("cycle %d: observed=%v, metrics reported=%d\n", cycle, observeIt, func() int {
+				n := 0
+				for _, sm := range rm.ScopeMetrics {
+					n += len(sm.Metrics)
+				}
+				return n
+			}())
+			show(fmt.Sprintf("cycle %d", cycle), rm)
+		}
+	default:
+		fmt.Println("unknown probe", *name)
+		os.Exit(3)
+	}
+}
+
 // ---------------------------------------------------------------- misc
 
 var otelErrors int
@@ -953,7 +1063,7 @@ func main() {
 	}
 	otel.SetErrorHandler(errCounter{})
 	if len(os.Args) < 2 {
-		fmt.Println("usage: c08 replay|random ...")
+		fmt.Println("usage: c08 replay|random|probe ...")
 		os.Exit(3)
 	}
 	switch os.Args[1] {
@@ -961,6 +1071,8 @@ func main() {
 		replay(os.Args[2:])
 	case "random":
 		random(os.Args[2:])
+	case "probe":
+		probe(os.Args[2:])
 	default:
 		os.Exit(3)
 	}
